@@ -60,7 +60,7 @@ CHECKS = {
  "C08": ("bgpsim", "5/C08", "deterministic simulation: stage-wise reference export model (session kinds x add-path x export policy)",
          "Loc-RIB histories from several peers plus redistributed statics across eBGP / RS-client / iBGP / RR-client sessions, add-path send, RFC 9234 roles, export policies; at quiescent checkpoints every session's Adj-RIB-Out dump must equal reference-export(actual Loc-RIB dump); a fifth of the plans drive real Adj-RIB-Outs of three session kinds on a real Loc-RIB directly, registering while paths are added and removed under the gate scheduler"),
  "C09": ("bgpsim", "5/C09", "deterministic simulation: always-on wire monitor with provenance through unique tags",
-         "every UPDATE the DUT writes is decoded by the independent codec, each NLRI attributed through its tag to the announcing peer, and the RFC export rule table (NO_ADVERTISE, NO_EXPORT, split horizon, iBGP reflection, OTC egress, AS prepend, next-hop-self, ORIGINATOR_ID/CLUSTER_LIST, LOCAL_PREF only iBGP) asserted per message under delays, flaps and policy replacement"),
+         "every UPDATE the DUT writes is decoded by the independent codec, each NLRI attributed through its tag to the announcing peer, and the RFC export rule table (NO_ADVERTISE, NO_EXPORT, split horizon, iBGP reflection, OTC egress, AS prepend, next-hop-self, ORIGINATOR_ID/CLUSTER_LIST, LOCAL_PREF only iBGP) asserted per message under delays, flaps and policy replacement; some AS_SEQUENCEs are filled up to the 255-ASN segment limit, and an UPDATE whose AS_PATH does not decode is a violation"),
  "C10": ("bgpsim", "5/C10", "deterministic simulation: simulator-owned aggregation ticker, operations placed around the tick",
          "announce / withdraw / replace at plan-chosen simulated times around the update sender's aggregation tick (same-window withdraw-after-announce, several operations per window, aggregation interval as a per-run knob, same-instant tie shuffling); once changes stop the replay of the UPDATEs received by the peer must equal the Adj-RIB-Out; a quarter of the plans call AddPath / RemovePath of live sessions' Adj-RIB-Outs directly (replacement without removal, duplicates)"),
  "C11": ("bgpsim", "5/C11", "deterministic simulation: add-path send histories with shared identifiers",
